@@ -55,7 +55,87 @@ def arm_variants(m):
     return t
 
 
+def mode_values(ctx, pf):
+    """how the three modes are encoded in the predicate's last parameter: {'model': value, 'script': value, 'general': value}"""
+    import absint as ai
+    names = [n for n in pf.param_names() if n not in ("self", "scopes")]
+    if not names:
+        return None, None
+    pname = names[-1]
+    ty = (pf.param_ty(pname) or "").replace(" ", "")
+    if ty == "Option<bool>":
+        return pname, {"model": ("Some", True), "script": ("Some", False), "general": ai.NONE}
+    en = ctx.tc.enum(ty.split("::")[-1].lstrip("&"))
+    if en:
+        vs = [v["name"] for v in en["variants"]]
+        out = {}
+        for v in vs:
+            lv = v.lower()
+            for mode in ("model", "script", "general"):
+                if mode in lv or (mode == "general" and lv in ("any", "normal", "none", "default")):
+                    out[mode] = ("E", v, ())
+        if len(out) == 3 and len(vs) == 3:
+            return pname, out
+    return pname, None
+
+
+def first_slices():
+    import absint as ai
+    F = ai.FREE
+    cond = ("E", "Condition", (F, ("T", (F, F)), ("T", (F, F))))
+    out = [("Ident", ("E", "Ident", (F,)), None)]
+    for kind, val in (("Invalid", ("E", "Invalid", ())), ("Var/data", ("E", "Var", (("var_name", F), ("from_data_scope", True)))),
+                      ("Var/local", ("E", "Var", (("var_name", F), ("from_data_scope", False)))), ("Script", ("E", "Script", (("abs_path", F),))),
+                      ("InlineScript", ("E", "InlineScript", (("path", F), ("mod_name", F))))):
+        out.append(("ScopeIndex:" + kind, ("E", "ScopeIndex", (F,)), val))
+    out.append(("Condition", cond, None))
+    for v in ("StaticMember", "IndirectValue", "CombineObj", "CombineArr"):
+        out.append((v, ("E", v, (F,)), None))
+    return out
+
+
+def decide(ctx, fn, pname, mode_val, first, scope_kind, rest=None, recursive=()):
+    """abstract outcomes of `fn` for a path whose first slice is `first` (a ScopeIndex resolving to `scope_kind`), in the given
+    mode, every further slice being of kind `rest`"""
+    import absint as ai
+
+    def hooks(it, e, st):
+        k = e.get("k")
+        if k == "field" and e["name"] == "lvalue_path":
+            return [(scope_kind if scope_kind is not None else ai.FREE, st)]
+        if k == "mcall":
+            m = e["m"]
+            if m in recursive:
+                ev_ = ("write", "{}") if "write" in m else ("rec", m)
+                return [(("Ok", ai.FREE) if "write" in m else ai.FREE, st.event(ev_))]
+            if m == "next" and not e["args"]:
+                if st.env.get("$next"):
+                    return [(ai.FREE, st)]
+                return [(("Some", first), st.set("$next", True))]
+            if m in ("first", "split_first") and not e["args"]:
+                return [(("Some", first if m == "first" else ("T", (first, ai.FREE))), st)]
+            if m == "get" and len(e["args"]) == 1 and e["args"][0].get("k") == "lit" and str(e["args"][0].get("v")) == "0":
+                return [(("Some", first), st)]
+            if m in ("len", "is_empty") and not e["args"]:
+                return [(ai.FREE, st)]
+        if k == "for":
+            return st.event(("rest-loop",))
+        if k == "mcall" and e["m"] in ("all", "any", "for_each", "try_for_each") and e["args"] and e["args"][0].get("k") == "closure":
+            return st.event(("rest-loop",))
+        return None
+    it = ai.Interp(hooks=hooks, idx=ctx.tc)
+    it.for_value = ("E", rest, (ai.FREE,)) if rest else ai.FREE
+    env = {"self": ai.FREE, "scopes": ai.FREE, "w": ai.FREE, pname: mode_val}
+    for n_ in fn.param_names():
+        env.setdefault(n_, ai.FREE)
+    try:
+        return [o for o in it.run(fn.body, env) if ("$error-exit",) not in o.events]
+    except ai.TooManyPaths:
+        return None
+
+
 def agree_rule(ctx):
+    import absint as ai
     ob = ctx.ob
     tc = ctx.tc
     obs = []
@@ -64,80 +144,82 @@ def agree_rule(ctx):
     if len(pred) != 1 or len(wr) != 1:
         return [ob("C11.agree/anchor", False, "proc_gen/expr.rs", "legality predicate / path writer not found")]
     pf, wf = pred[0], wr[0]
-    pm = first_slice_match(pf.body)
-    if not pm:
-        # the functions exist but the predicate is written in a form this rule does not read (e.g. split_first + boolean matches)
-        return [ob("C11.agree/shape", None, ctx.where(pf), "the legality predicate is not written as a match over the first slice with rejecting arms: agreement between predicate and writer is not decided for this tree")], wr[0]
-    ptab = arm_variants(pm[0])
-    # predicate: may-accept per variant (mode-specific rejections are evaluated for the simple `model == Some(x)` tests)
-    def pred_accepts(v, mode):
-        a = ptab.get(v) or ptab.get("_")
-        if a is None:
-            return False
-        if unconditional_reject(a["body"]):
-            return False
-        # `if model == Some(false) { return false; }`
-        for n in sir.walk(a["body"]):
-            if n.get("k") == "if" and n["cond"].get("k") == "binary" and n["cond"]["op"] == "==" and sir.expr_str(n["cond"]["l"]) == "model":
-                want = sir.expr_str(n["cond"]["r"])
-                cur = {"model": "Some(True)", "script": "Some(False)", "general": "None"}[mode]
-                if want == cur and unconditional_reject(n["then"]):
-                    return False
-        return True
-    # writer: branch on model == Some(true)
-    wms = first_slice_match(wf.body)
-    branch = {}
-    for n in sir.walk(wf.body):
-        if n.get("k") == "if" and n["cond"].get("k") == "binary" and sir.expr_str(n["cond"]).replace(" ", "") == "model==Some(True)":
-            tm = first_slice_match(n["then"])
-            em = first_slice_match(n["else"]) if n.get("else") else []
-            if tm and em:
-                branch["model"] = arm_variants(tm[0])
-                branch["script"] = arm_variants(em[0])
-                branch["general"] = branch["script"]
-    if not branch:
-        return [ob("C11.agree/shape", None, ctx.where(wf), "the path writer does not branch on the mode with a first-slice match in each branch: agreement is not decided for this tree")], wf
+    pname, modes = mode_values(ctx, pf)
+    wname = [n for n in wf.param_names() if n not in ("self", "scopes", "w")]
+    if modes is None or not wname:
+        return [ob("C11.agree/shape", None, ctx.where(pf), "the mode parameter of the legality predicate is neither `Option<bool>` nor a three-variant enum this rule can map to model / script / general: agreement is not decided for this tree")], wf
+    wname = wname[-1]
+    REC = ("is_legal_lvalue_path", "write_lvalue_path", "to_lvalue_path_arr")
 
-    def writer_bails(v, mode):
-        t = branch[mode]
-        a = t.get(v) or t.get("_")
-        if a is None:
+    def accepts(outs):
+        """True / False / None (undecided)"""
+        if outs is None:
+            return None
+        if any(o.value is True or o.value == ai.FREE for o in outs):
             return True
-        if unconditional_reject(a["body"]):
-            return True
+        if any(o.value == ai.UNK or (o.tainted and o.value is not False) for o in outs):
+            return None
         return False
+
+    def bails(outs):
+        """the writer leaves before it reaches the loop over the remaining slices: the rest of the path is dropped"""
+        if outs is None or not outs:
+            return None
+        if any(("rest-loop",) in o.events for o in outs):
+            return False
+        if any(o.tainted for o in outs):
+            return None
+        return True
+    seen_loop = False
+    table = []
     for mode in ("model", "script", "general"):
-        for v in SLICES:
-            acc = pred_accepts(v, mode)
-            bails = writer_bails(v, mode)
-            ok = not (acc and bails)
-            obs.append(ob("C11.agree/first/%s/%s" % (mode, v), ok, ctx.where(wf),
-                          "mode %s, first slice %s: predicate %s, writer %s" % (mode, v, "may accept" if acc else "rejects", "bails out (writes nothing, the rest of the path is dropped)" if bails else "writes it"),
-                          witness=None if ok else 'bind:tap="{{ (q ? m : m).f }}" emits [2,"p","m"].concat([]) - the member "f" is lost'))
-    # rest slices
-    prest = None
-    for n in sir.walk(pf.body):
-        if n.get("k") == "for":
-            for m in sir.walk(n["body"]):
-                if m.get("k") == "match":
-                    prest = m
-    wrest = None
-    for n in sir.walk(wf.body):
-        if n.get("k") == "for":
-            for m in sir.walk(n["body"]):
-                if m.get("k") == "match" and any(v in SLICES for a in m["arms"] for v in sir.pat_variants(a["pat"])):
-                    wrest = m
-    if prest is None or wrest is None:
-        obs.append(ob("C11.agree/rest/anchor", False, ctx.where(wf), "rest-slice loops not found"))
+        for label, first, kind in first_slices():
+            acc = accepts(decide(ctx, pf, pname, modes[mode], first, kind, recursive=REC))
+            wouts = decide(ctx, wf, wname, modes[mode], first, kind, recursive=REC)
+            bl = bails(wouts)
+            seen_loop = seen_loop or bl is False
+            table.append((mode, label, acc, bl))
+    if not seen_loop:
+        return [ob("C11.agree/shape", None, ctx.where(wf), "no path through the writer reaches a loop over the remaining slices in a form this rule reads: agreement is not decided for this tree")], wf
+    n_acc = 0
+    for mode, label, acc, bl in table:
+        key = "C11.agree/first/%s/%s" % (mode, label)
+        if acc is None or bl is None:
+            obs.append(ob(key, None, ctx.where(wf), "mode %s, first slice %s: %s not decided (a construct outside the fragment of the abstract interpreter decides it)" % (mode, label, "predicate" if acc is None else "writer")))
+            continue
+        n_acc += 1 if acc else 0
+        ok = not (acc and bl)
+        obs.append(ob(key, ok, ctx.where(wf),
+                      "mode %s, first slice %s: predicate %s, writer %s" % (mode, label, "may accept" if acc else "rejects", "bails out (writes nothing for it, the rest of the path is dropped)" if bl else "goes on to the remaining slices"),
+                      witness=None if ok else 'bind:tap="{{ (q ? m : m).f }}" emits [2,"p","m"].concat([]) - the member "f" is lost'))
+    if n_acc < 6:
+        obs.append(ob("C11.floor/accepting", False, ctx.where(pf), "the predicate accepts only %d (mode, first slice) combinations (10 on the reviewed tree): extraction incomplete" % n_acc))
+    # remaining slices: a kind the predicate lets through must be written by the writer's loop
+    ident = ("E", "Ident", (ai.FREE,))
+    pa, wa, und = set(), set(), []
+    for v in SLICES:
+        outs = decide(ctx, pf, pname, modes["general"], ident, None, rest=v, recursive=REC)
+        entered = [o for o in (outs or []) if ("for-enter",) in o.events]
+        if outs is None or not entered:
+            und.append(v)
+            continue
+        a_ = accepts(entered)
+        if a_ is None:
+            und.append(v)
+        elif a_:
+            pa.add(v)
+        wouts = decide(ctx, wf, wname, modes["general"], ident, None, rest=v, recursive=REC)
+        went = [o for o in (wouts or []) if ("for-enter",) in o.events]
+        for o in went:
+            i = o.events.index(("for-enter",))
+            if any(ev[0] == "write" and "{}" in ev[1] for ev in o.events[i:]):
+                wa.add(v)
+        if wouts is None or not went:
+            und.append(v)
+    if und:
+        obs.append(ob("C11.agree/rest", None, ctx.where(wf), "remaining slices %s: not decided (the loops over the remaining slices are written in a form the abstract interpreter does not enter)" % sorted(set(und))))
     else:
-        pa = set(v for a in prest["arms"] for v in sir.pat_variants(a["pat"]) if not unconditional_reject(a["body"]) and v in SLICES)
-        wa = set()
-        for a in wrest["arms"]:
-            b = a["body"]
-            ends = any(x.get("k") == "break" for x in sir.walk(b)) and not any(sir.write_fmt_call(x) for x in sir.walk(b))
-            if not ends:
-                wa.update(v for v in sir.pat_variants(a["pat"]) if v in SLICES)
-        obs.append(ob("C11.agree/rest", pa <= wa, ctx.where(wf), "rest slices accepted by the predicate %s; written by the writer %s" % (sorted(pa), sorted(wa))))
+        obs.append(ob("C11.agree/rest", pa <= wa and bool(pa), ctx.where(wf), "remaining slices accepted by the predicate %s; written by the writer %s" % (sorted(pa), sorted(wa))))
     return obs, wf
 
 
@@ -177,33 +259,36 @@ def prefix_rule(ctx, wf):
     idf = frags.get("Ident", [])
     ok = any(g.startswith("0,{gen_lit_str(") for g in idf) and any(g.startswith("{gen_lit_str(") for g in idf)
     obs.append(ob("C11.prefix/Data", ok, ctx.where(wf), "data-field paths are written as %s (general mode: prefix 0; model mode: bare field name)" % idf))
-    # slice(1)
-    sl = [n for n in sir.walk(wf.body) if sir.write_fmt_call(n) and sir.write_fmt_call(n)[1] == [("lit", ".slice(1)")]]
-    ok = False
-    if len(sl) == 1:
-        pm = sir.parent_map(wf.body)
-        p = sl[0]
-        cond = None
-        while id(p) in pm:
-            p = pm[id(p)]
-            if p.get("k") == "if":
-                cond = sir.expr_str(p["cond"])
-                break
-        # the flag is set only next to the `...var` spread in the model branch under `from_data_scope`
-        sets = [n for n in sir.walk(wf.body) if n.get("k") == "assign" and sir.expr_str(n["l"]) == cond]
-        ok = len(sets) == 1
-        if ok:
-            q = sets[0]
-            in_model = False
-            guarded = False
-            while id(q) in pm:
-                q = pm[id(q)]
-                if q.get("k") == "arm" and q.get("guard") is not None and "from_data_scope" in sir.expr_str(q["guard"]):
-                    guarded = True
-                if q.get("k") == "if" and sir.expr_str(q["cond"]).replace(" ", "") == "model==Some(True)":
-                    in_model = True
-            ok = in_model and guarded
-    obs.append(ob("C11.prefix/slice1", ok, ctx.where(wf), "`.slice(1)` is applied only to a spread data-scope loop variable in model mode: %s" % ok))
+    # slice(1): decided on the writer's abstract outcomes per (mode, first slice)
+    import absint as ai
+    pred = [f for f in ctx.tc.fns if f.name == "is_legal_lvalue_path" and f.body]
+    pname, modes = mode_values(ctx, pred[0]) if pred else (None, None)
+    wname = [n for n in wf.param_names() if n not in ("self", "scopes", "w")]
+    if not modes or not wname:
+        obs.append(ob("C11.prefix/slice1", None, ctx.where(wf), "mode encoding not readable: `.slice(1)` placement is not decided for this tree"))
+        return obs
+    REC = ("is_legal_lvalue_path", "write_lvalue_path", "to_lvalue_path_arr")
+    bad, good, und = [], [], []
+    for mode in ("model", "script", "general"):
+        for label, first, kind in first_slices():
+            outs = decide(ctx, wf, wname[-1], modes[mode], first, kind, recursive=REC)
+            if outs is None:
+                und.append((mode, label))
+                continue
+            went = [o for o in outs if ("rest-loop",) in o.events]
+            sliced = [o for o in went if any(ev[0] == "write" and ".slice(1)" in ev[1] for ev in o.events)]
+            should = mode == "model" and label == "ScopeIndex:Var/data"
+            if should and went and len(sliced) == len(went):
+                good.append((mode, label))
+            elif should:
+                bad.append((mode, label, "not sliced"))
+            elif sliced:
+                bad.append((mode, label, "sliced"))
+    if und and not bad:
+        obs.append(ob("C11.prefix/slice1", None, ctx.where(wf), "not decided for %s" % und[:3]))
+    else:
+        obs.append(ob("C11.prefix/slice1", not bad and bool(good), ctx.where(wf), "`.slice(1)` is applied exactly to a spread data-scope loop variable in model mode: %s" % (bad or "yes"),
+                      witness=None if not bad else "model:value=\"{{ item.x }}\" inside wx:for over a data list: the runtime drops the list's own key from the path only when .slice(1) is applied to the spread variable"))
     return obs
 
 
@@ -271,35 +356,51 @@ def ternary_rule(ctx):
 
 
 def guard_rule(ctx):
+    import guards as G
     ob = ctx.ob
     tc = ctx.tc
     obs = []
     n = 0
-    want = {"Some(True)": "has_model_lvalue_path", "Some(False)": "has_script_lvalue_path"}
+    # the guard of a mode is whichever method asks the legality predicate with that mode (`has_model_lvalue_path` ..): read from
+    # the code, so that the encoding of the mode (Option<bool>, an enum) does not matter
+    guard_of_mode = {}
+    for g in tc.fns:
+        if not g.body or g.name in ("is_legal_lvalue_path",):
+            continue
+        for x in sir.walk(g.body):
+            if x.get("k") == "mcall" and x["m"] == "is_legal_lvalue_path" and len(x["args"]) == 2 and g.ret == "bool":
+                guard_of_mode.setdefault(sir.expr_str(x["args"][1]), set()).add(g.name)
+    if len(guard_of_mode) < 3:
+        return [ob("C11.guard/anchor", False, "proc_gen/expr.rs", "the per-mode guards (methods asking is_legal_lvalue_path with a fixed mode) were not found: %s" % guard_of_mode)]
     for f in tc.fns:
         if not f.body or "proc_gen" not in f.module or "tag" not in f.module:
             continue
-        pm = None
+        gs = None
         for x in sir.walk(f.body):
             if x.get("k") == "mcall" and x["m"] == "lvalue_path" and len(x["args"]) == 3:
                 n += 1
                 mode = sir.expr_str(x["args"][2])
                 recv = sir.expr_str(x["recv"])
-                pm = pm or sir.parent_map(f.body)
-                p = x
-                guards = []
-                while id(p) in pm:
-                    c = p
-                    p = pm[id(p)]
-                    if p.get("k") == "if" and p.get("then") is c:
-                        guards.append(sir.expr_str(p["cond"]))
+                gs = gs or G.guards_of(f.body)
+                held = []   # (receiver, method) of every call in a condition that is true where the emission runs
+                for kind, subj, pol in gs.get(id(x), []):
+                    if kind == "cond" and pol:
+                        for y in sir.walk(subj):
+                            if y.get("k") == "mcall":
+                                held.append((sir.expr_str(y["recv"]), y["m"]))
+                        if subj.get("k") in ("path", "field"):
+                            held.append(("", sir.expr_str(subj)))
+                    if kind == "pat" and pol:
+                        held.append(("", sir.expr_str(subj[0]) + "~" + subj[1]))
                 key = "C11.guard/%s/%s#%d" % (f.qual, mode, n)
-                if mode in want:
-                    ok = any(("%s.%s(" % (recv, want[mode])) in g for g in guards)
-                    obs.append(ob(key, ok, ctx.where(f), "lvalue_path(%s) is emitted under %s; guards on the path: %s" % (mode, want[mode], guards[:3])))
-                else:
-                    ok = any("lvalue_path_from_data_scope" in g for g in guards)
-                    obs.append(ob(key, ok, ctx.where(f), "general lvalue_path is emitted only when the list has a decided data/script path: %s" % guards[:2]))
+                names = guard_of_mode.get(mode)
+                if names is None:
+                    obs.append(ob(key, False, ctx.where(f), "lvalue_path is emitted with mode `%s`, for which no guard method exists" % mode))
+                    continue
+                ok = any(r == recv and m in names for r, m in held)
+                if not ok and any("general" in nm for nm in names):
+                    ok = any("lvalue_path_from_data_scope" in m or "lvalue_path_from_data_scope" in r for r, m in held)
+                obs.append(ob(key, ok, ctx.where(f), "lvalue_path(%s) is emitted under `%s.%s(..)`; conditions holding there: %s" % (mode, recv, "|".join(sorted(names)), [("%s.%s" % h) for h in held][:4])))
     if n < 8:
         obs.append(ob("C11.floor/lvalue-sites", False, "proc_gen/tag.rs", "only %d lvalue_path emissions found (floor 8)" % n))
     return obs
